@@ -120,6 +120,16 @@ def run_single(gen):
     for which, dis, h, m in itertools.product(["on", "off"], [True, False], range(24), [0, 1, 30, 59]):
         c.state["timer"][0][which] = {"disabled": dis, "hour": h, "minute": m}
         step(f"at{gen} ac0 timer {which} {dis} {h}:{m}", f"at{gen}:timer-status", lambda: c.timer_status_frame())
+    # the 'timer set' flag of the AC status and the timer record are independent reports: whatever the flag
+    # does, the quick timers shown are those of the most recent timer status frame
+    for a in (0, 1):
+        c.state["timer"][a] = {"ac": a, "on": {"disabled": False, "hour": 7, "minute": 30}, "off": {"disabled": False, "hour": 22, "minute": 15}}
+    step(f"at{gen} timers 07:30/22:15 reported", f"at{gen}:timer-status", lambda: c.timer_status_frame())
+    for flag in (True, False, True, False):
+        for a in (0, 1):
+            c.state["ac"][a]["timer"] = flag
+            step(f"at{gen} ac{a} status with timer flag {flag} after a timer report", f"at{gen}:timer-vs-status-flag",
+                 lambda a=a: c.ac_status_frame(only=[a]))
     # error code zero / non-zero x error text present / absent
     # (the text only changes while the code is 0: the client learns the text by asking when the code changes)
     for text, code in itertools.product([None, "ER: FFFE", "E5"], [0, 1, 0xFFFE, 0, 37, 0]):
@@ -198,13 +208,18 @@ def menu(gen):
             z = c.fr(0xC0, at5.write_zone_status([dict(c.state["zone"][0], zone=12, percent=1)]))
         return [a, z]
 
+    def timer_flag(w):
+        st = w.console.state["ac"][1]
+        st["timer"] = not st["timer"]
+        return [w.console.ac_status_frame(only=[1])]
+
     def repeat_last(w):
         return [w.console.ac_status_frame(), w.console.zone_status_frame()]
 
     return [("ac0-A", ac(0, "A")), ("ac0-B", ac(0, "B")), ("ac1-B", ac(1, "B")), ("both-acs", both_acs),
             ("zone0-A", zone(0, "A")), ("zone0-B", zone(0, "B")), ("zone2-B", zone(2, "B")), ("all-zones", all_zones),
             ("timer", timer), ("error-text", err_text), ("version", version), ("unknown-ids", unknown_entities),
-            ("repeat-all", repeat_last)]
+            ("ac1-timer-flag", timer_flag), ("repeat-all", repeat_last)]
 
 
 def run_history(job):
